@@ -1097,6 +1097,45 @@ def oracle_C15(an):
     return v
 
 
+CROSS_C15 = {"drains_checked": 0, "max_calls_after_last_input": 0, "min_mu_minus_calls": None, "max_mu": 0}
+
+
+def cross_C15(ai, am):
+    """the implementation's drains against the model's liveness measure (`mu`, the 4th number of the
+    model's st= field; theorem C15_liveness): once a drain with default (final) answers reads no
+    further byte, every write is accepted, no mutex call fails and no command is held, the number
+    of further calls until OK is at most mu + 1, mu taken from the model's state at that point."""
+    v = []
+    if len(ai.lines) != len(am.lines) or any(o.startswith(("hq", "vq")) for o in ai.scn.ops) or ai.tr.abort:
+        return v
+    byop = {}
+    for li in range(len(ai.lines)):
+        byop.setdefault(ai.opno(li), []).append(li)
+    for k, idxs in byop.items():
+        t = ai.optext[k].split()
+        if t[0] != "drain" or t[3] != "1" or len(t) > 4:
+            continue
+        # last call of the drain that read a byte, refused a write, failed a mutex call or ran held
+        j0 = idxs[0]
+        for j in idxs:
+            bad = any((e[0] == "R" and e[1] is not None) or (e[0] == "W" and not e[2]) or (e[0] in ("L", "U") and e[1] != 0) for e in ai.ev[j])
+            if bad or ai.lines[j].q[1] == 2:
+                j0 = j + 1
+        if j0 > idxs[-1] or j0 == 0 or ai.lines[j0 - 1].q[1] == 2 or len(am.lines[j0 - 1].st) < 4:
+            continue
+        m = am.lines[j0 - 1].st[3]
+        rest = idxs[-1] - j0 + 1
+        CROSS_C15["drains_checked"] += 1
+        CROSS_C15["max_calls_after_last_input"] = max(CROSS_C15["max_calls_after_last_input"], rest)
+        CROSS_C15["max_mu"] = max(CROSS_C15["max_mu"], m)
+        sl = m + 1 - rest
+        if CROSS_C15["min_mu_minus_calls"] is None or sl < CROSS_C15["min_mu_minus_calls"]:
+            CROSS_C15["min_mu_minus_calls"] = sl
+        if rest > m + 1:
+            v.append("drain at op %d: %d calls after the last input byte, the proven bound for the state reached there is %d + 1 (C15_liveness)" % (k, rest, m))
+    return v
+
+
 # ---------------------------------------------------------------------------------------
 # C16 / C17 (sequential part): mutex discipline
 # ---------------------------------------------------------------------------------------
